@@ -419,4 +419,4 @@ def run_case(case: dict[str, Any]) -> Outcome:
 
 
 def main(chk: Check) -> None:
-    chk.explore("claims", cases, run_case, quick=1500, thorough=24000)
+    chk.explore("claims", cases, run_case, quick=4500, thorough=24000)
